@@ -3,6 +3,7 @@
 package main
 
 import (
+	"bytes"
 	"bufio"
 	"context"
 	"encoding/hex"
@@ -48,6 +49,7 @@ type handle struct {
 	b     []byte
 	s     string
 	isStr bool
+	g     *olric.GetResponse // the response object the value was taken from (cluster level): the caller may read it again
 }
 
 func (h *handle) hex() string {
@@ -83,6 +85,16 @@ func (st *aliasState) clientOp(op []interface{}) []interface{} {
 		i := int(num(op[1]))
 		if i >= len(st.handles) {
 			return []interface{}{"skip", "nohandle"}
+		}
+		if h := st.handles[i]; h.g != nil {
+			// the caller kept the response: what it yields now is what it yielded when it was handed back
+			if h.isStr {
+				if s2, err := h.g.String(); err != nil || s2 != h.s {
+					return []interface{}{"read", hex.EncodeToString([]byte(s2)), "response"}
+				}
+			} else if b2, err := h.g.Byte(); err != nil || !bytes.Equal(b2, h.b) {
+				return []interface{}{"read", hex.EncodeToString(b2), "response"}
+			}
 		}
 		return []interface{}{"read", st.handles[i].hex()}
 	case "buf":
@@ -266,14 +278,14 @@ func runAliasCluster(sc *aliasScenario) (res aliasResult) {
 			if err != nil {
 				return []interface{}{"val", "scanerr"}
 			}
-			st.handles = append(st.handles, &handle{s: s, isStr: true})
+			st.handles = append(st.handles, &handle{s: s, isStr: true, g: g})
 			return []interface{}{"val", "nil", hex.EncodeToString([]byte(s))}
 		}
 		b, err := g.Byte()
 		if err != nil {
 			return []interface{}{"val", "scanerr"}
 		}
-		st.handles = append(st.handles, &handle{b: b})
+		st.handles = append(st.handles, &handle{b: b, g: g})
 		return []interface{}{"val", "nil", hex.EncodeToString(b)}
 	}
 	for _, op := range sc.Ops {
